@@ -30,6 +30,27 @@ Definition dir_or_matches (s : St) (name : str) : St * option err :=
 Definition filter_infos (l : list finfo) : list finfo :=
   filter (fun fi => fi_dir fi || m (fi_name fi)) l.
 
+(* RegexpFile.Readdir(n).  As pinned (regexp_readdir_refills = 0): one Readdir(n) of the source, filtered —
+   for n > 0 a page whose entries are all hidden comes back empty with a nil error.  With the refill loop
+   (regexp_readdir_refills = 1): for n > 0 such a page is dropped and the next one is read, until an entry
+   survives, the source returns nothing, or it reports an error (io.EOF at the end).  [fuel] bounds the number
+   of dropped pages. *)
+Fixpoint re_readdir (fuel : nat) (s : St) (h : nat) (n : Z) : St * res :=
+  match inner s (HReaddir h n) with
+  | (s', RInfos l None) =>
+    let fl := filter_infos l in
+    if negb (Z.eqb regexp_readdir_refills 1) then (s', RInfos fl None)
+    else if (n <=? 0) || negb (match fl with [] => true | _ => false end) || (match l with [] => true | _ => false end)
+    then (s', RInfos fl None)
+    else match fuel with
+         | S f => re_readdir f s' h n
+         | O => (s', RInfos [] None)
+         end
+  | (s', RInfos l (Some e)) => (s', RInfos [] (Some e))     (* err != nil: return nil, err *)
+  | x => x
+  end.
+Definition re_fuel : nat := 4096.
+
 (* state: the inner state and the handles that are RegexpFiles *)
 Definition re_step (st : St * list nat) (o : op) : (St * list nat) * res :=
   let '(s, wrapped) := st in
@@ -79,18 +100,13 @@ Definition re_step (st : St * list nat) (o : op) : (St * list nat) * res :=
     if m p then let '(s', r) := inner s o in ((s', wrapped), r) else ((s, wrapped), eNOENT)
   | HReaddir h n =>
     if existsb (Nat.eqb h) wrapped then
-      match inner s o with
-      | (s', RInfos l None) => ((s', wrapped), RInfos (filter_infos l) None)
-      | (s', RInfos l (Some e)) => ((s', wrapped), RInfos [] (Some e))     (* err != nil: return nil, err *)
-      | (s', r) => ((s', wrapped), r)
-      end
+      let '(s', r) := re_readdir re_fuel s h n in ((s', wrapped), r)
     else let '(s', r) := inner s o in ((s', wrapped), r)
   | HReaddirnames h n =>
     if existsb (Nat.eqb h) wrapped then
       (* RegexpFile.Readdirnames goes through RegexpFile.Readdir *)
-      match inner s (HReaddir h n) with
-      | (s', RInfos l None) => ((s', wrapped), RNames (map fi_name (filter_infos l)) None)
-      | (s', RInfos l (Some e)) => ((s', wrapped), RNames [] (Some e))
+      match re_readdir re_fuel s h n with
+      | (s', RInfos l e) => ((s', wrapped), RNames (map fi_name l) e)
       | (s', r) => ((s', wrapped), r)
       end
     else let '(s', r) := inner s o in ((s', wrapped), r)
